@@ -212,6 +212,49 @@ def run(ctx):
                             ctx.ob("N1", b.defp, f"{last_seg(sfx)}.{f}:from-csprng", loc(s["sp"]), ok,
                                    f"{what} is drawn from the CSPRNG in the per-session constructor" if ok else f"{what} does not derive from a CSPRNG call inside the constructor (constant, counter or value shared from outside the session)")
         ctx.floor("N1", f"constructions of {last_seg(sfx)}", 1, n)
+        # N1b: once drawn, the secret is never rewritten with something that is not a fresh draw (e.g. bytes read from the peer)
+        from .common import place_field_owners
+        nw = 0
+        for (tit, f) in targets:
+            for b in bodies:
+                for blk in b.rpo():
+                    for s in b.stmts(blk):
+                        if s["k"] != "assign":
+                            continue
+                        wplace, how = None, None
+                        own = place_field_owners(prog, b, s["p"]) if any(e[0] == "field" and len(e) > 2 and e[2] == f for e in s["p"][1]) else []
+                        if own and own[-1][1] == f and own[-1][0] is not None and own[-1][0]["path"] == tit["path"] and not [e for e in s["p"][1][::-1][:1] if e[0] != "field"]:
+                            wplace, how = s["p"], "assigned"
+                        rv = s["rv"]
+                        if rv["k"] == "ref" and rv.get("mut") and any(e[0] == "field" and len(e) > 2 and e[2] == f for e in rv["p"][1]):
+                            own = place_field_owners(prog, b, rv["p"])
+                            idx = [i for i, (o_, n_) in enumerate(own) if n_ == f and o_ is not None and o_["path"] == tit["path"]]
+                            if idx:
+                                wplace, how = rv["p"], "mutably borrowed"
+                        if wplace is None:
+                            continue
+                        nw += 1
+                        if how == "assigned":
+                            srcs = [op_place(o)[0] for o in b.operands_of_rvalue(rv) if op_place(o)]
+                            ok = bool(srcs) and all(derives_from_random(prog, b, l) for l in srcs)
+                        else:
+                            # the borrow is handed to a call: fine iff that call is a CSPRNG fill
+                            fwd, grew = {s["p"][0]}, True
+                            while grew:      # reborrows / unsizing casts of the borrow (assignments only, not through calls)
+                                grew = False
+                                for blk2 in b.rpo():
+                                    for s2 in b.stmts(blk2):
+                                        if s2["k"] == "assign" and s2["p"][0] not in fwd and any(op_place(o) and op_place(o)[0] in fwd for o in b.operands_of_rvalue(s2["rv"])):
+                                            fwd.add(s2["p"][0])
+                                            grew = True
+                            users = [(bb, c, t) for (bb, c, t) in b.calls() if any(op_place(a) and op_place(a)[0] in fwd for a in t["args"])]
+                            ok = bool(users) and all(is_csprng_call(prog, c) or c.name.startswith(("DerefMut", "IndexMut", "AsMut", "BorrowMut")) or c.method in ("as_mut_slice", "as_mut") for (_, c, _) in users) \
+                                and any(is_csprng_call(prog, c) for (_, c, _) in users)
+                        ctx.ob("N1", b.defp, f"{last_seg(sfx)}.{f}:never-rewritten", loc(s["sp"]), ok,
+                               f"{what} is rewritten with a fresh CSPRNG draw" if ok else
+                               f"{what} is {how} after the session was constructed and the new value is not a CSPRNG draw: the session then seals under a salt / id that is "
+                               "not its own fresh randomness (bytes taken from the peer make both directions derive the same subkey and count nonces from the same start)")
+        ctx.ob("N1", tit["path"] if targets else sfx, f"{last_seg(sfx)}.{'/'.join(fields)}:write-sites-inventoried", "-", True, f"{nw} write site(s) outside the constructor", nontrivial=False, ordinal=False)
     # UDP Session::from(Mode): both ids random on their arm
     # role: the datagram session struct = the struct with a session id and a packet id
     sess_structs = [it for it in prog.items if it["k"] == "struct" and {"client_session_id", "server_session_id", "packet_id"} <= {n for (n, _) in it["fields"]}]
